@@ -1,6 +1,42 @@
 /-
-  Property C15 — property theorems only (helper lemmas live next to the model).
-  Stub: nothing claimed yet.
+  Property C15 — transient topic: each subscriber sees every item once, in order, then the end.
+  Property theorems only; helper lemmas in Babylon/Topic/Lemmas*.lean.
 -/
+import Babylon.Topic.Model
+
 namespace Babylon.Properties.C15
+open Babylon.Topic Babylon.Gen.Topic Babylon.Core
+
+/-! ### Generated obligations: the source still is what the model was written against -/
+
+/-- status encoding, waiter-bit arithmetic, block size of the slot vector, futex word layout -/
+theorem gen_constants :
+    stInitial = 0 ∧ stPublished = 1 ∧ stClosed = 2 ∧ statusBits = 16 ∧ waiterUnit = 2 ^ 16 ∧
+    noWaiterMax = 2 ^ 16 - 1 ∧ blockSize = 128 ∧ sizeofFutex = 4 ∧ futexNeedCreate = 0 ∧
+    valueOffset = 0 ∧ wakeAllTraceCount = 99 := by decide
+
+/-- memory orders written in the source (the model's labels and its happens-before ghost use these
+names, never literals) -/
+theorem gen_orders :
+    ordNextAdd = .rlx ∧ ordPubFence = .rel ∧ ordStatusStore = .rlx ∧ ordPubScFence = .sc ∧
+    ordClosedStore = .rlx ∧ ordCloseLoad = .rlx ∧ ordCloseScFence = .sc ∧
+    ordWakeLoad = .rlx ∧ ordWakeCasSucc = .rlx ∧ ordWakeCasFail = .rlx ∧
+    ordIsClosed = .rlx ∧ ordIsPublished = .rlx ∧ ordWaitLoad = .rlx ∧ ordWaitCasSucc = .rlx ∧
+    ordWaitCasFail = .rlx ∧ ordWaitReload = .rlx ∧ ordAcqFence = .acq ∧ ordReset = .rlx ∧
+    ordClearNext = .rlx := by decide
+
+theorem gen_skel_publish_n : skel_publish_n = Skel.publish_n := by decide
+theorem gen_skel_publish_forward :
+    skel_publish = Skel.forward ∧ skel_publish_n_fwd = Skel.forward ∧ skel_consume1 = Skel.consume1 := by decide
+theorem gen_skel_close : skel_close = Skel.close := by decide
+theorem gen_skel_clear : skel_clear = Skel.clear ∧ skel_reset = Skel.reset := by decide
+theorem gen_skel_status :
+    skel_set_published = Skel.set_status ∧ skel_set_closed = Skel.set_status ∧
+    skel_is_published = Skel.get_status ∧ skel_is_closed = Skel.get_status := by decide
+theorem gen_skel_wakeup :
+    skel_wakeup_waiters = Skel.wakeup_waiters ∧ skel_wakeup_waiters_slow = Skel.wakeup_waiters_slow := by decide
+theorem gen_skel_wait :
+    skel_wait_until_ready = Skel.wait_until_ready ∧ skel_wait_until_ready_slow = Skel.wait_until_ready_slow := by decide
+theorem gen_skel_consume : skel_consume = Skel.consume := by decide
+
 end Babylon.Properties.C15
